@@ -1,5 +1,6 @@
 """C01 -- Markup expansion reproduces the element tree the operators denote."""
 import itertools
+import re
 
 import abbr_gen as g
 import c01_lex as lex
@@ -38,6 +39,10 @@ CALL_ROUTES = True           # generator class "every documented call route x gl
 RARE_SYNTAX = True           # generator classes "every documented form of the attribute set on a nameless element", "text nodes / `{}` / `[]` in every position before every operator", "statements whose last groups are not closed yet" on / off (harness/c01_rare.py; `{}` / `[]` directly before `>`: c01_rare.EMPTY_NODE_CHILDREN)
 LONG_LIVED_CONFIG = True     # generator class "ONE Config / dict object over a sequence of calls, its context / options re-assigned in between" on / off
 
+
+# listed finding: a nameless element directly below an EMPTY nameless unit (`{}` / `[]`) takes its implicit name from that unit
+KEY_EMPTY_UNIT_IMPLICIT = 'C01:implicit-name-below-empty-nameless-unit'
+EMPTY_UNIT_IMPLICIT_RE = re.compile(r'(?:\{\}|\[\s*\])(?:\*\d*)?>(?:.*?[>+^(])?(?:[.#]|\[[^\]])', re.S)   # an empty unit with `>` and a nameless element somewhere after it
 
 def use_documented_inline():
     """Point the independent denotation (abbr_gen.unroll) at the hard-coded inline list."""
@@ -570,7 +575,7 @@ def rare_syntax(ctx, model):
             ctx.nontrivial(abbr)
         bad = rare.judge(g.html_preorder, metas, rej, r)
         if bad:
-            ctx.property_failure('C01:rare:%s|%s' % (abbr, canon_cfg(cfg)), 'C01 expand(%r, %s): %s' % (abbr[:300], canon_cfg(cfg), bad),
+            ctx.property_failure(KEY_EMPTY_UNIT_IMPLICIT if EMPTY_UNIT_IMPLICIT_RE.search(abbr) else 'C01:rare:%s|%s' % (abbr, canon_cfg(cfg)), 'C01 expand(%r, %s): %s' % (abbr[:300], canon_cfg(cfg), bad),
                                  {'component': 'C01-rare', 'abbr': abbr, 'config': cfg, 'metas': metas, 'may_reject': rej,
                                   'impl': repr(r)[:500], 'why': bad})
     ctx.cov['rare_syntax'] = {'cases': len(cases), 'through_model': len(strict), 'oracle_only': len(loose),
